@@ -185,6 +185,12 @@ def replay(w):
             lints = [c for c in r['result'].get('lints', '[]').strip('[]').split(',') if c]
             codes = [c for c in r['result'].get('errors', '[]').strip('[]').split(',') if c]
             return bool(codes) or sum(1 for c in lints if c == '1800') != w['expect_l1800']
+        if w.get('expect_render_clean'):
+            from . import witness_render
+            return witness_render.bad(r) is not None
+        if w.get('expect_same_verdict_as'):
+            acc = r.get('status') == 'ok' and r['result'].get('errors') == '[]'
+            return not acc
         if 'expect_literal' in w:
             from . import witness_literals
             return not witness_literals.verdict_ok(w['expect_literal'], r)
